@@ -87,6 +87,18 @@ def main():
         "not_applicable": [{"property_id": p, "reason": NOT_YET} for p in ALL if p not in CHECKS],
     }
     json.dump(man, open(os.path.join(VERIF, "MANIFEST.json"), "w"), indent=1)
+    # consolidate known findings: known_findings.d/*.json (one per property module) -> known_findings.json
+    kd = os.path.join(VERIF, "known_findings.d")
+    findings, fixed = [], []
+    for f in sorted(os.listdir(kd)):
+        if f.endswith(".json"):
+            j = json.load(open(os.path.join(kd, f)))
+            findings += j.get("findings", [])
+            fixed += j.get("fixed", [])
+    json.dump({"comment": "generated by tools/mkmanifest.py from known_findings.d/*.json; a listed finding makes the check "
+                          "print KNOWN-FINDING and exit 0 for exactly that key; 'fixed' entries suppress nothing",
+               "findings": findings, "fixed": fixed}, open(os.path.join(VERIF, "known_findings.json"), "w"), indent=1)
+    print("known_findings.json: %d findings, %d fixed" % (len(findings), len(fixed)))
     print("MANIFEST.json: %d checks, %d not claimed" % (len(checks), len(man["not_applicable"])))
 
 if __name__ == "__main__":
